@@ -77,6 +77,33 @@ def c11(tier, seed, t0):
                                  "families V-int V-float V-char V-str and M1..M15 as in DESIGN.md 4.11; strings outside every family are skipped (counted)"])
 
 
+PIPE_FUNCS = ["norminette.lexer.lexer.Lexer.* (whole tokenizer)", "norminette.context.Context.*", "norminette.registry.Registry.run",
+              "Registry.run_rules", "every norminette.rules.is_*.Is*.run and check_*.Check*.run reached by the inputs",
+              "norminette.errors.Errors.add / Error.from_name", "norminette.scope.*"]
+
+
+@register("C01")
+def c01(tier, seed, t0):
+    from harness import conform as H
+    n = int(os.environ.get("VERIF_N", 0)) or (48 if tier == "quick" else 640)
+    budget = 170 if tier == "quick" else 2700
+    res = R.run_pool(H.HNAME, H.chunks(tier, n), budget, seed, tier,
+                     extra=dict(sample_rate=0.1 if tier == "quick" else 0.03, max_ops=2 if tier == "quick" else 3,
+                                chunk_time=80 if tier == "quick" else 240), shuffle=False)
+    agg = R.merge(res)
+    bounds = dict(program_instances=n, generator="harness/families.py (grammar of DESIGN.md 4.1), shapes from a seeded RNG",
+                  symbolic_per_instance="all identifier / macro / include-path / numeric / char slots, <=2 string slots, "
+                                        "<=2 (quick) or 3 (thorough) operator slots (rotating window), <=2 identifiers with the full "
+                                        "first-letter class (others avoid l/u/L/U)",
+                  identifier_length="1..6 quick, 1..10 thorough", expr_depth="2 quick / 3 thorough",
+                  functions="<=2 quick / <=5 thorough", per_path_alarm_s=10,
+                  outside="function pointers, __attribute__, compound initialisers, #if blocks in .c files, comments "
+                          "(C17/C19), continuation lines, non-ASCII; shapes not drawn by the generator")
+    return R.report("C01", H.HNAME, tier, seed, agg, t0, bounds, functions=PIPE_FUNCS,
+                    assumptions=["the conforming grammar is this project's reading of the Norm (pdf/en.norm.tex), calibrated on the tool",
+                                 "CLI clause (verdict line / exit status) is C04's subject; here: File.errors after Registry.run"])
+
+
 def main():
     ap = argparse.ArgumentParser()
     ap.add_argument("prop")
